@@ -3,6 +3,7 @@ package props
 import (
 	"crypto/sha256"
 	"fmt"
+	"math"
 	"runtime/debug"
 	"testing"
 	"time"
@@ -306,6 +307,8 @@ func keyFollowUps(k *cose.Key, wire []byte) error {
 	})
 }
 
+func nan() float64 { return math.NaN() }
+
 const c06Deadline = 5 * time.Second
 
 // checkC06: no decoding entry point panics or takes long on any input, and
@@ -481,6 +484,20 @@ func TestC06_HeaderGrid(t *testing.T) {
 	begin(t, "C06", "headergrid")
 	sh, nsh := gridShard()
 	n := 0
+	// values outside the documented data model (integers beyond int64, bignums, tagged items, deep nesting):
+	// refusing them is fine, panicking is not
+	deep := rc.Int(1)
+	for i := 0; i < 40; i++ {
+		deep = rc.Array(deep)
+	}
+	extra := []namedVal{
+		{"uint>int64", rc.Uint(1 << 63)}, {"nint<int64", rc.NegU(1 << 63)}, {"array-uint>int64", rc.Array(rc.Uint(1<<64 - 1))},
+		{"array-nint<int64", rc.Array(rc.NegU(1<<64 - 1))}, {"array-nint<int64-and-label", rc.Array(rc.Int(4), rc.NegU(1 << 63))},
+		{"bignum", rc.Tag(2, rc.Bytes([]byte{1, 0, 0, 0, 0, 0, 0, 0, 0}))}, {"array-bignum", rc.Array(rc.Tag(3, rc.Bytes([]byte{1})))},
+		{"tagged-time", rc.Tag(1, rc.Int(1700000000))}, {"tagged-text-time", rc.Tag(0, rc.Text("not a time"))}, {"tag55799", rc.Tag(55799, rc.Int(-7))},
+		{"deep-array", deep}, {"undefined", rc.Undef}, {"simple", rc.Simple(100)}, {"float16-nan", rc.Val{K: rc.KFloat16, F: 0x7e00}},
+		{"map-with-array-key", rc.Map(rc.E(rc.Array(rc.Int(1)), rc.Int(1)))}, {"map-with-nan-keys", rc.Map(rc.E(rc.Float(nan()), rc.Int(1)), rc.E(rc.Float(nan()), rc.Int(2)))},
+	}
 	forEachSingleParamCell(false, func(hc c13Case) {
 		n++
 		if n%nsh != sh {
@@ -498,7 +515,7 @@ func TestC06_HeaderGrid(t *testing.T) {
 			c := mutCase{SeedKind: -1, Wire: w, Muts: []gen.Mutation{{Op: "header-grid", Path: hc.Cell}}}
 			judge(t, "c06", c, checkC06)
 		}
-	})
+	}, extra...)
 	stats.ExhaustivePart("single-parameter header cells (all decoders + follow-ups)", n/nsh)
 }
 
